@@ -4,6 +4,7 @@ from ..core.davsys import Config
 from . import e1common
 
 ASSUME = [
+    "the first configuration also sends PROPPATCH for properties of a member (executable, displayname, a dead property): whatever the answer, tags must keep following contents only",
     "one configuration has two workers: a second application object with its own store cache on the same directory (gunicorn workers = 2 in the repository's examples); every write is offered to either worker, and after every request both workers are audited and must show the same",
     "tags compared: getctag (both namespaces), sync-token, collection getetag",
     "cross-history oracle over ALL visited states: tag -> contents is a function, and (git) contents -> tag is a function",
@@ -17,7 +18,7 @@ def configs(tier):
     bodies = {"cal": ["X", "X2", "Z", "BAD"], "ab": ["K"], "c2": ["X", "Z"]}
     props = {"cal": {"displayname": ["d1", None]}}
     out = [
-        Config(front="wsgi", backend="tree", prefix="/", features=feats, bodies=bodies, props=props, oracles={"C08"}),
+        Config(front="wsgi", backend="tree", prefix="/", features=feats | {"member-props"}, bodies=bodies, props=props, oracles={"C08"}),
         Config(front="wsgi", backend="bare", prefix="/dav/", features=feats, bodies=bodies, props=props, oracles={"C08"}),
     ]
     # property values next to the canonical ones (a colour without '#'): one property per configuration, see ASSUME
